@@ -419,6 +419,47 @@ func ruleCosmosPatch(r *Run, rule, entry, typ string, m *cosmosMaps) {
 	if len(missing) > 0 && bad == "" {
 		bad = "mutable fields of " + typ + " that " + cosmosUpdaters[entry] + " never patches: " + strings.Join(missing, ", ")
 	}
+	// every mutable field is patched on every successful path (an unconditional write: a reset to the
+	// zero value must reach the store like any other value)
+	if fl, paths, ok := r.flowPaths(rule, fn); ok && bad == "" {
+		for i := range paths {
+			p := &paths[i]
+			if p.Exit != ExitReturn {
+				continue
+			}
+			var ret *Event
+			for j := range p.Ev {
+				if p.Ev[j].Kind == EvReturn {
+					ret = &p.Ev[j]
+				}
+			}
+			if ret == nil {
+				continue
+			}
+			if isNil, has := ReturnsNilLast(fl.Info, *ret); !has || !isNil {
+				continue
+			}
+			onPath := map[string]bool{}
+			for _, e := range p.Ev {
+				if e.Kind == EvCall && len(e.Call.Args) == 2 {
+					if sel, ok := ast.Unparen(e.Call.Fun).(*ast.SelectorExpr); ok && strings.HasPrefix(sel.Sel.Name, "Append") {
+						src := wfField(fl.Info, e.Call.Args[1], typ)
+						if src == "" {
+							if def := localDef(fl.Info, fn.Decl.Body, e.Call.Args[1]); def != nil {
+								src = wfField(fl.Info, def, typ)
+							}
+						}
+						onPath[src] = true
+					}
+				}
+			}
+			for _, f := range mutable {
+				if !onPath[f] && bad == "" {
+					bad = cosmosUpdaters[entry] + " patches " + f + " only on some paths (guard " + ExitGuardKey(fl, p) + "): when the branch is not taken the stored value stays stale — e.g. a reset to the zero time/empty list never reaches the store"
+				}
+			}
+		}
+	}
 	r.Check(rule, "cosmos:"+entry+":patch-paths", bpos, bad == "", "%s", orOK(bad, "every patch path is a JSON name of the entry, fed from the field it was created from; mutable fields covered"))
 }
 
